@@ -1341,6 +1341,9 @@ def install_heap(ex):
     add(r"^Cell::<.*>::set$", h_cell_set2)
     add(r"^Cell::<.*>::get$", h_cell_get2)
     add(r"^Vec::<.*>::(len|is_empty)$|^core::slice::<impl \[.*\]>::(len|is_empty)$", h_vec_len)
+    add(r"^(core::ops::)?RangeInclusive::<.*>::new$", lambda *a: h_range_inclusive_new(*a))
+    add(r"^BTreeMap::<usize, .*>::range::<.*>$", lambda *a: h_mapc_range(*a))
+    add(r"^core::slice::<impl \[(usize|u8|u16|u32|u64|i32|i64|isize)\]>::contains$", lambda *a: h_slice_contains_int(*a))
     add(r"^<Vec<.*> as Deref(Mut)?>::deref(_mut)?$", h_vec_deref)
     add(r"^<Vec<.*> as (core::ops::)?Index<usize>>::index$", h_vec_index)
     add(r"^core::slice::<impl \[.*\]>::get::<usize>$|^Vec::<.*>::get::<usize>$", h_slice_get)
@@ -1767,7 +1770,7 @@ def install_c03(ex):
     add(r"^<Vec<.*> as IntoIterator>::into_iter$", h_vec_into_iter)
     add(r"^<alloc::vec::IntoIter<.*> as Iterator>::next$|^<alloc::collections::btree_map::Iter<.*> as Iterator>::next$|^<alloc::vec::Drain<.*> as Iterator>::next$", h_iter_next)
     add(r"^<alloc::collections::btree_map::Iter<.*> as IntoIterator>::into_iter$|^<alloc::vec::IntoIter<.*> as IntoIterator>::into_iter$", h_identity_keep)
-    add(r"^<core::slice::Iter<.*> as Iterator>::map::<.*>$", h_iter_map)
+    add(r"^<core::slice::Iter<.*> as Iterator>::map::<.*>$|^<(alloc::collections::)?btree_map::(Range|Iter)<.*> as Iterator>::map::<.*>$", h_iter_map)
     add(r"^<core::iter::Map<.*> as Iterator>::collect::<.*>$", h_iter_collect)
     add(r"^<core::iter::Map<.*> as Iterator>::sum::<usize>$", h_iter_sum)
     add(r"^BTreeMap::<alloc::string::String, Rc<VariableInfo>>::contains_key::<.*>$", h_mapc_contains)
@@ -1806,7 +1809,7 @@ def h_rule_call(ex, name, args, path, depth, caller):
     fields = cur(path, args[2])
     p2 = path.event(("rule_call", r.name, fields))
     accept = r.accept(fields) if callable(r.accept) else r.accept
-    yield from fork(ex, p2, accept, lambda: some(r.result), NONE)
+    yield from fork(ex, p2, accept, lambda: some(r.result(fields) if callable(r.result) else r.result), NONE)
 
 
 def h_range_iter_next(ex, name, args, path, depth, caller):
@@ -2599,15 +2602,17 @@ def h_parse_f64_written(ex, name, args, path, depth, caller):
 
 
 def h_from_str_radix(ex, name, args, path, depth, caller):
-    """i64::from_str_radix on a written literal of symbolic digits: Ok(value) when it fits i64, Err otherwise"""
+    """{i,u}N::from_str_radix on a written literal of symbolic digits: Ok(value) when it fits i64, Err otherwise"""
     v, radix = deref(args[0]), conc_int(deref(args[1]))
     if not isinstance(v, DecStrV) or not all(c[0] == "d" for c in v.chars):
         raise Unsupported("from_str_radix on %r" % (v,))
     val = z3.IntVal(0)
     for c in v.chars:
         val = val * radix + c[1]
-    ok = val <= (1 << 63) - 1
-    yield from fork(ex, path, ok, lambda: EnumV("Result", "Ok", [IntV(val, 64, True)]), lambda: EnumV("Result", "Err", [OpaqueV("ParseIntError")]))
+    m = re.search(r"<impl ([iu](?:8|16|32|64|128|size))>", name)
+    bits, signed = INT_TYPES[m.group(1)] if m and m.group(1) in INT_TYPES else (64, True)
+    ok = val <= ((1 << (bits - 1)) - 1 if signed else (1 << bits) - 1)
+    yield from fork(ex, path, ok, lambda: EnumV("Result", "Ok", [IntV(val, bits, signed)]), lambda: EnumV("Result", "Err", [OpaqueV("ParseIntError")]))
 
 
 def h_str_eq_written(ex, name, args, path, depth, caller):
@@ -2687,7 +2692,7 @@ def install_number_tokeniser(ex):
     install_time_tokeniser(ex)
     add(r"^alloc::str::<impl str>::replace::<&str>$|^core::str::<impl str>::replace::<&str>$", h_str_replace_chars)
     add(r"^core::str::<impl str>::parse::<f64>$", h_parse_f64_written)
-    add(r"^core::num::<impl i64>::from_str_radix$", h_from_str_radix)
+    add(r"^core::num::<impl [iu](8|16|32|64|size)>::from_str_radix$", h_from_str_radix)
     add(r"^<(alloc::string::)?String as (core::ops::)?Index<(core::ops::)?RangeFull>>::index$", h_identity0)
     add(r"^<str as PartialEq>::(eq|ne)$", h_str_eq_written)
     add(r"^core::str::<impl str>::chars$", h_str_chars_iter)
@@ -2696,3 +2701,61 @@ def install_number_tokeniser(ex):
     add(r"^<Chars<'_> as Iterator>::filter::<.*>$", h_iter_filter)
     add(r"^<Filter<Chars<'_>, .*> as Iterator>::map::<.*>$|^<Chars<'_> as Iterator>::map::<.*>$", h_iter_map)
     add(r"^<(core::iter::)?Map<.*Chars<'_>.*> as Iterator>::collect::<(alloc::string::)?String>$|^<Filter<Chars<'_>, .*> as Iterator>::collect::<(alloc::string::)?String>$|^<Chars<'_> as Iterator>::collect::<(alloc::string::)?String>$", h_collect_string_chars)
+
+
+
+# ------------------------------------------------------------------ object fields rewritten through container calls (C04: set_language)
+def h_container_wipe(ex, name, args, path, depth, caller):
+    """clear / insert / remove / push / retain ... on a container that is a field of a symbolic object: recorded as a store to
+    that field (the new content is not modelled - a spec that only asks WHICH fields a function writes needs no more)"""
+    loc = find_loc(args[0])
+    if loc is None:
+        return NotImplemented
+    yield Outcome("return", path.store(loc[0], loc[1], "container:" + name.rsplit("::", 1)[-1], OpaqueV("rewritten by " + name)), OpaqueV("unit"))
+
+
+def h_string_is_empty(ex, name, args, path, depth, caller):
+    v = deref(args[0])
+    if not isinstance(v, StrV):
+        return NotImplemented
+    yield Outcome("return", path, z3.Length(v.term()) == 0)
+
+
+def install_field_writes(ex):
+    ex.handlers.insert(0, (re.compile(r"^(BTreeMap|Vec|alloc::string::String|String|VecDeque)::?<?.*>?::(clear|insert|remove|push|push_str|pop|retain|truncate|append|extend)(::<.*>)?$"), h_container_wipe))
+    ex.handlers.insert(0, (re.compile(r"^(alloc::string::)?String::is_empty$|^core::str::<impl str>::is_empty$"), h_string_is_empty))
+
+
+
+def h_slice_contains_int(ex, name, args, path, depth, caller):
+    v = cur(path, args[0])
+    x = deref(args[1])
+    if not isinstance(v, VecV) or not isinstance(x, IntV):
+        return NotImplemented
+    conds = []
+    for i in v.items:
+        i = deref(i)
+        if not isinstance(i, IntV):
+            return NotImplemented
+        conds.append(i.t == x.t)
+    yield Outcome("return", path, z3.simplify(z3.Or(conds)) if conds else z3.BoolVal(False))
+
+
+
+# ------------------------------------------------------------------ BTreeMap::range over a concrete map (ascending key order)
+def h_range_inclusive_new(ex, name, args, path, depth, caller):
+    yield Outcome("return", path, StructV("RangeInclusive", [args[0], args[1]]))
+
+
+def h_mapc_range(ex, name, args, path, depth, caller):
+    m = mapc_of(path, args[0])
+    r = deref(args[1])
+    if m is None or not (isinstance(r, StructV) and r.name in ("RangeInclusive", "Range")):
+        return NotImplemented
+    lo, hi = conc_int(deref(r.f[0])), conc_int(deref(r.f[1]))
+    if lo > hi or (lo == hi and r.name == "Range"):
+        if lo > hi:
+            yield panic(path, "range start is greater than range end in BTreeMap", caller.name)
+            return
+    keys = [k for k in sorted(m.d) if isinstance(k, int) and lo <= k and (k <= hi if r.name == "RangeInclusive" else k < hi)]
+    yield Outcome("return", path, IterV([TupleV([RefV(IntV(k, 64, False)), RefV(m.d[k])]) for k in keys], 0, False, True))
